@@ -1,6 +1,7 @@
 """C09 - generated pybind11 code is well-formed C++ (Engine E)."""
 from .. import rules_flow as RF
 from .. import rules_pybind as RP
+from .. import rules_xml as RX
 from .. import rules_inst as RI
 from .. import rules_alias as RA
 from .c13 import P1_EXEMPT
@@ -44,4 +45,6 @@ def run(ctx, rep):
     rep.run(RI.rule_cpp_spelling_not_flattened, ctx, rep, "W8")
     rep.run(RP.rule_value_slot_never_empty, ctx, rep, "W9")
     rep.run(RP.rule_templates_are_constant, ctx, rep, "W10")
+    # W11: the docstring literal - the one place where arbitrary input text becomes a C++ token - is well-formed for every text
+    rep.run(RX.rule_docstring_literal_wellformed, ctx, rep, "W11")
     rep.run(RF.rule_locals_defined, ctx, rep, "U1", packages=("gtwrap/pybind_wrapper.py",), min_functions=3)
